@@ -835,11 +835,11 @@ func (r *Runner) valueLikeEqualTo(v1, v2 interface{}) bool {
 	case *decimal.Big:
 		n1 := convToNumber(v1)
 		n2 := convToNumber(v2)
-		return n1.Cmp(n2) == 0
+		return v1 == v2 || numbersEqual(n1, n2)
 	case bool:
 		n1 := convToNumber(v1)
 		n2 := convToNumber(v2)
-		return n1.Cmp(n2) == 0
+		return numbersEqual(n1, n2)
 	case string:
 		s1 := convToString(v1)
 		s2 := convToString(v2)
@@ -863,6 +863,11 @@ func (r *Runner) resolveNotEqualsEqualsBinaryExpression(expr *BinaryExpression, 
 	return !r.valueEqualTo(v1, v2), nil
 }
 
+// numbersEqual: equal value; NaN equals no number (Cmp alone reports 0 for it)
+func numbersEqual(n1, n2 *decimal.Big) bool {
+	return !n1.IsNaN(0) && !n2.IsNaN(0) && n1.Cmp(n2) == 0
+}
+
 func (r *Runner) valueEqualTo(v1, v2 interface{}) bool {
 	if IsNull(v1) && IsNull(v2) || v1 == v2 {
 		return true
@@ -872,7 +877,7 @@ func (r *Runner) valueEqualTo(v1, v2 interface{}) bool {
 		case *decimal.Big:
 			n1 := v1.(*decimal.Big)
 			n2 := v2.(*decimal.Big)
-			return n1.Cmp(n2) == 0
+			return numbersEqual(n1, n2)
 		case bool:
 			n1 := v1.(bool)
 			n2 := v2.(bool)
